@@ -135,7 +135,8 @@ def replay_case(repo, case):
 
 ORDER_FORMULAS = ["a & b", "a | -b & c", "a ^ b ^ c", "[a, b, c] = 1", "exists b # (a & b) | c", "forall a # a | b", "if a then b else c",
                   "lfp X # a | (X & b)", "[a, b] <= [c]", "c => (b => a)", "-(a <=> c) | b", "a", "x' & (y | x)", "(a' ^ a) | b'"]
-ORDER_FILES = ["a b c", "c b a", "b", "c a", "x a y b z c", "a a b", "c, b; a", "z", "b \"comment\" a", "X c", "x' y x", "y x'", "b' a' a", "_x x1 x' x"]
+ORDER_FILES = ["a b c", "c b a", "b", "c a", "x a y b z c", "a a b", "c, b; a", "z", "b \"comment\" a", "X c", "x' y x", "y x'", "b' a' a", "_x x1 x' x",
+               "c < b < a", "(c, b); a", "c.b.a", "c\tb\r\na", "[c] => b & a"]
 
 
 def _table(stdout):
